@@ -160,6 +160,17 @@ func (n *Names) CoqStep(s Step) string {
 		r := map[string]string{"ok": "RemOk", "fail": "RemFail", "size": "RemSize"}[s.IRem]
 		return fmt.Sprintf("RI (IWrite %d%%N %d%%N %s)", s.ISess, s.ILit, r)
 	}
+	if s.Op.Kind == "connupdate" {
+		nl := "None"
+		if s.Op.Replace {
+			nl = fmt.Sprintf("(Some %d%%N)", s.Op.Lit)
+		}
+		var ps []string
+		for _, x := range s.Op.Names {
+			ps = append(ps, n.Path(x))
+		}
+		return fmt.Sprintf("RU %s %d%%Z %s [%s] (%s)", n.Path(s.Op.Name), s.Op.UIDs[0], nl, strings.Join(ps, ";"), CoqObs(s.Obs))
+	}
 	if s.Dedup {
 		ob := s.Obs
 		if (s.Op.Kind == "copy" || s.Op.Kind == "move") && strings.EqualFold(s.Op.Name, RecoveryName) {
